@@ -151,12 +151,26 @@ def quantifier_form(fx, rep, p, slf):
     rep.fn(p)
     # `.flatten()` over the stream of Results yields exactly the Ok payloads: the element is the record itself
     flat = v[2] == ("call", "std::iter::Iterator::flatten", (iter_term(slf),))
+    # `.filter_map(Result::ok)` is the same sequence of Ok payloads
+    if v[2][0] == "call" and v[2][1].endswith("Iterator::filter_map") and len(v[2][2]) == 2 and v[2][2][0] == iter_term(slf) \
+            and v[2][2][1][0] == "fnref" and v[2][2][1][1].startswith("std::result::Result") and v[2][2][1][1].endswith("::ok"):
+        flat = True
+        v = (v[0], v[1], ("call", "std::iter::Iterator::flatten", (iter_term(slf),)), v[3])
     rep.check("C19.1", "C19.1/has_line_info/driver", v[2] == iter_term(slf) or flat, loc=F.short_file(b["sp"]), found="any() over %s" % S.tstr(v[2])[:200],
               expected="any() over %s (the complete record stream)" % S.tstr(iter_term(slf)))
     pred = v[3]
     x = ("bound", 0)
     okx = x if flat else mk_payload(x, "Ok", "0")
     cases = pred[1] if pred[0] == "cases" else (((), (), pred),)
+    # a case whose value is itself a test (`line_mapping.is_some()` as the closure's tail) is the two cases of that test
+    cases2 = []
+    for c in cases:
+        if c[2] not in (TRUE, FALSE) and c[2][0] in ("is", "not", "eq", "lt", "le", "empty", "bool"):
+            cases2.append((tuple(c[0]) + ((c[2], True),), c[1], TRUE))
+            cases2.append((tuple(c[0]) + ((c[2], False),), c[1], FALSE))
+        else:
+            cases2.append(c)
+    cases = tuple(cases2)
     paths = [(_P(c[0], c[1]), (S.VAL, c[2])) for c in cases]
 
     def ref(o):
